@@ -25,7 +25,7 @@ def tasks(tier, seed=0):
     out = [task(F, "ob_fptofp", f"fpsimp.fptofp_simplifier[{form}]/meaning", ["C02"], form=form, tier=tier) for form in ("bv", "fp", "int")]
     out.append(task(F, "ob_fptobv", "fpsimp.fptobv_simplifier/bit-pattern", ["C02"], tier=tier))
     for sort in ("DOUBLE", "FLOAT"):
-        for g, n in (("arith", 6), ("unary-cmp", 1), ("conv", 1)):
+        for g, n in (("arith", 6), ("unary-cmp", 1), ("conv", 1), ("literal", 1)):
             for sh in range(n):
                 out.append(task("vf.bounded.fp_boundary", "run", f"fp.{g}[{sort}]/bounded#{sh}", ["C02"], kind="bounded", replay="vf.bounded.fp_boundary:replay",
                                 sort=sort, group=g, budget_s=100 if tier == "quick" else 900, known_labels=kl, shard=sh, nshards=n))
